@@ -1722,6 +1722,7 @@ func (e *Engine) deleteSeriesRange(seriesKeys [][]byte, min, max int64) error {
 			for j < len(seriesKeys) && cmp < 0 {
 				j++
 				if j >= len(seriesKeys) {
+					seriesKeysLock.RUnlock()
 					return nil
 				}
 				cmp = bytes.Compare(seriesKeys[j], seriesKey)
